@@ -214,6 +214,21 @@ fn gen_job(ctx: &Ctx, job: usize, jobs: usize, reps: usize) -> Stats {
             }
         }
     }
+    // larger vertex counts (two-digit vertex names): boundary edge counts only
+    for v in [11usize, 17, 40] {
+        for undirected in [false, true] {
+            let max = if undirected { v * (v - 1) / 2 } else { v * (v - 1) };
+            for e in [0usize, 1, v, max / 2, max - 1, max, max + 1] {
+                k += 1;
+                if k % jobs != job {
+                    continue;
+                }
+                let r = Req { v: Some(v), e: Some(e), undirected, complete: false, dot: k % 2 == 0, to_file: k % 3 == 0 };
+                check_req(ctx, &mut st, &r, &format!("{}-big-{}", job, k), &mut seen);
+                st.bump("larger_vertex_count_requests");
+            }
+        }
+    }
     if job == 0 {
         // missing arguments
         for (v, e, c) in [(None, None, false), (Some(3), None, false), (None, None, true)] {
@@ -439,7 +454,7 @@ pub fn run(ctx: &Ctx) -> (Stats, Spec) {
     let mut st = crate::report::merge_all(parts);
     st.exhaustive.push("every request (V <= 6, E <= max+2, -u, --dot, stdout / -o) and --complete for V <= 6; --convert on all digraphs with <= 3 vertices; --colors k (k = 0..3) on all loop-free graphs with 2..4 vertices".into());
     let spec = Spec {
-        rule: "all (V in 0..6, E in 0..max+2, -u, --dot, stdout or -o) requests, feasible ones repeated 10 [quick] / 60 [thorough] times (every run is a fresh random sample; the number of distinct outputs seen is reported), --complete with and without an edge count, missing arguments; --convert on every digraph with <= 3 vertices (shuffled rows; exact duplicates and self-loops without -u; reversed pairs under -u), --colors 0..3 on every loop-free graph with 2..4 (thorough: sampled 5) vertices, with four vertex-name families (plain; one name a prefix of another: v1 / v10 / v1X, 1 / 10 / 100; names containing the colour suffix pattern), and --colors on generated complete graphs with 11-12 vertices. distinct = (request, output); non-trivial = 0 < E < max resp. non-empty input.".into(),
+        rule: "all (V in 0..6, E in 0..max+2, -u, --dot, stdout or -o) requests and boundary edge counts for V in {11, 17, 40}, feasible ones repeated 10 [quick] / 60 [thorough] times (every run is a fresh random sample; the number of distinct outputs seen is reported), --complete with and without an edge count, missing arguments; --convert on every digraph with <= 3 vertices (shuffled rows; exact duplicates and self-loops without -u; reversed pairs under -u), --colors 0..3 on every loop-free graph with 2..4 (thorough: sampled 5) vertices, with four vertex-name families (plain; one name a prefix of another: v1 / v10 / v1X, 1 / 10 / 100; names containing the colour suffix pattern), and --colors on generated complete graphs with 11-12 vertices. distinct = (request, output); non-trivial = 0 < E < max resp. non-empty input.".into(),
         assumptions: vec![
             "uniformity of the random sample is not claimed by the property and not tested".into(),
             "self-loops and exact duplicates are not given to --convert -u / --colors (their treatment is a convention the statement does not fix)".into(),
